@@ -8,6 +8,7 @@ VARS = {
     "clash": ["S", "a", "B", "b", "C"],                       # a variable and a terminal share a value
     "reserved": ["S", "a#CNF#", "C#CNF#1", "S#SUBS#0", "#STARTUNION#"],
     "lower": ["s", "np", "vp", "x1", "y", "zed"],
+    "lowerclash": ["s", "n", "vp", "b", "y", "Cap"],           # lower-case names shared by variables and terminals
     "termlike": ["S", "#TERM#a", "#TERM#b", "Start", "C#CNF#2"],
     "odd": ["S", "1st", "_tmp", "#n", "Éa", "x-y"],
     "cnfnames": ["S", "C#CNF#2", "C#CNF#4", "C#CNF#1"],
@@ -15,7 +16,7 @@ VARS = {
 }
 TERMS = {
     "str": ["a", "b", "c", "d", "e"], "int": ["a", "b", "c"], "clash": ["a", "b", "c"],
-    "reserved": ["a", "#0UNION#", "#1CONC#"], "lower": ["a", "b", "Cap"], "termlike": ["a", "b", "c"],
+    "reserved": ["a", "#0UNION#", "#1CONC#"], "lower": ["a", "b", "Cap"], "lowerclash": ["n", "b", "Cap"], "termlike": ["a", "b", "c"],
     "odd": ["a", "Éb", "2"], "emptyname": ["a", "b", "c"], "cnfnames": ["a", "b", "c"],
 }
 VCS = ["str", "str", "str", "int", "clash", "reserved", "lower", "termlike", "inject", "inject"]
